@@ -226,10 +226,27 @@ func c12Read(file []byte, c c12Dec, d hx.Delivery, plan []int, hdrLen int) ([]by
 			streamVio = pbt.Failf("C12/read-ahead", "releasing plaintext byte %d (chunk %d) after the source handed out %d bytes; more than about one further chunk of read-ahead (bound %d)", pos, i, counter.HandedOut, bound)
 		}
 	}
-	if len(plan) == 1 && plan[0] == -1 {
-		var buf bytes.Buffer
-		_, err = io.Copy(&buf, r)
-		out = buf.Bytes()
+	if len(plan) >= 1 && plan[len(plan)-1] == -1 {
+		// optional leading Reads, then io.Copy
+		for _, sz := range plan[:len(plan)-1] {
+			b := make([]byte, sz)
+			n, e := r.Read(b)
+			if n > 0 {
+				check(len(out))
+			}
+			out = append(out, b[:n]...)
+			if e != nil {
+				err = e
+				break
+			}
+		}
+		if err == nil {
+			var buf bytes.Buffer
+			_, err = io.Copy(&buf, r)
+			out = append(out, buf.Bytes()...)
+		} else if err == io.EOF {
+			err = nil
+		}
 	} else {
 		zero := 0
 		for k := 0; ; k++ {
